@@ -448,3 +448,31 @@ Proof.
   - destruct Hreq as (ip & port & Hin). exists ip, port. apply in_or_app; right; exact Hin.
   - apply in_or_app; right; exact Hreq.
 Qed.
+
+(* ------------------------------------------------------------------ no fallback to "no authentication" *)
+Lemma userpass_first_out store inp evs r : userpass store inp = (evs, r) -> exists tl, evs = Out [x05; x02] :: tl /\ ~ In (Out [x05; x00]) tl.
+Proof.
+  unfold userpass. intro H.
+  destruct inp as [|ver [|ulen r1]]; try (inversion H; subst; eexists; split; [reflexivity|intros []]).
+  destruct (negb (zb ver =? 1)%Z); [inversion H; subst; eexists; split; [reflexivity|intros []]|].
+  destruct (read_full (nat_of_byte ulen) r1) as [[user r2]|]; [|inversion H; subst; eexists; split; [reflexivity|intros []]].
+  destruct r2 as [|plen r3]; [inversion H; subst; eexists; split; [reflexivity|intros []]|].
+  destruct (read_full (nat_of_byte plen) r3) as [[pass r4]|]; [|inversion H; subst; eexists; split; [reflexivity|intros []]].
+  destruct (valid store user pass); inversion H; subst; eexists; (split; [reflexivity|]); intro Hin; in_cases Hin; discriminate.
+Qed.
+
+(* when any credential entry is configured (even one that Provision drops), the server never
+   selects "no authentication": the method reply 05 00 is never sent *)
+Lemma no_noauth_when_credentials (repl upper : bytes -> bytes) c srv inp evs r :
+  provision repl upper c = Some srv -> credentials c <> [] ->
+  negotiate srv inp = (evs, r) -> ~ In (Out [x05; x00]) evs.
+Proof.
+  intros Hprov Hc. destruct (provision_auth repl upper c srv Hprov) as [[Hnil _]|[_ [m [Hm _]]]]; [contradiction|].
+  unfold negotiate. rewrite Hm. intro H.
+  destruct inp as [|ver [|nm r2]]; try (inversion H; subst; intros []).
+  destruct (read_full (nat_of_byte nm) r2) as [[methods r3]|]; [|inversion H; subst; intros []].
+  destruct (negb (zb ver =? 5)%Z); [inversion H; subst; intros []|].
+  cbn [select_auth] in H. destruct (existsb _ methods).
+  - destruct (userpass_first_out _ _ _ _ H) as [tl [-> Hn]]. intros [Heq|Hin]; [discriminate|contradiction].
+  - inversion H; subst. intro Hin. in_cases Hin. discriminate.
+Qed.
